@@ -5,6 +5,7 @@ import LentilVerif.Lemmas.PropLinear
 import LentilVerif.Lemmas.ChainExtents
 import LentilVerif.Lemmas.Window
 import LentilVerif.Lemmas.PlaneComplex
+import LentilVerif.Props.C09
 import LentilVerif.Props.C07
 /-! # C03 — splitting an aperture into segments never changes the result
 
@@ -679,6 +680,39 @@ example : (∀ x ∈ [Witness.sp, Witness.sp], x.WF) ∧
    Witness.sp_ext.1, Witness.sp_ext.2⟩
 
 end endtoend
+
+section fft
+
+/-- **segmented = monolithic through `propagate_fft`** (`K = ℂ`), composing C09 `fft_eq_propagate_dft` (the FFT path returns the
+field of `propagate_dft` at the wavelength it reports) with `propagate_common_linear`: when `propagate_fft` answers for both
+descriptions (same grid, output shape and reported wavelength — these depend on the sampling only), every sample of the two
+`Wavefront.field`s agrees, for a fresh wavefront through any non-empty chain of partitioned planes (`WF`, `ExtOK`) -/
+theorem segmented_eq_monolithic_propagate_fft (ph : ℝ → ℂ) (w0 : Fld ℂ) (h0 : w0.size1 = true)
+    (s : SplitPlane ℂ ℝ) (ss : List (SplitPlane ℂ ℝ)) (hwf : ∀ x ∈ s :: ss, x.WF)
+    (hEseg : ExtOK (ss.map fun x => x.seg.boxes) s.seg.boxes) (hEmono : ExtOK (ss.map fun x => x.mono.boxes) s.mono.boxes)
+    (W0 W1 : Int) (dx0 dx1 du0 du1 wl z : ℝ) (os : Int) (shape : Option (Int × Int)) (scrA scrB : Option (Arr ℂ))
+    (lam : ℝ) (S0 S1 : Int) (so : Int × Int) (gA gB : Fld ℂ)
+    (hfA : propagateFft 1 (chainMultiply ph ((s :: ss).map SplitPlane.seg) [w0]) false W0 W1 dx0 dx1 du0 du1 wl z os shape scrA
+      = FftOut.ok lam S0 S1 so gA)
+    (hfB : propagateFft 1 (chainMultiply ph ((s :: ss).map SplitPlane.mono) [w0]) false W0 W1 dx0 dx1 du0 du1 wl z os shape scrB
+      = FftOut.ok lam S0 S1 so gB)
+    (hcons : dx0 * du0 = dx1 * du1 ∨ (S0 : ℝ) * (dx0 * du0) = (S1 : ℝ) * (dx1 * du1))
+    (hp : dx0 * du0 ≠ 0) (hp1 : dx1 * du1 ≠ 0) (hz : z ≠ 0) (hos : 0 < os) (hS : 0 < S0 ∧ 0 < S1)
+    (hW : 0 ≤ W0 ∧ W0 ≤ S0 ∧ 0 ≤ W1 ∧ W1 ≤ S1)
+    (hfitA : ∀ f ∈ chainMultiply ph ((s :: ss).map SplitPlane.seg) [w0], f.within W0 W1)
+    (hfitB : ∀ f ∈ chainMultiply ph ((s :: ss).map SplitPlane.mono) [w0], f.within W0 W1)
+    (hso : 0 < so.1 ∧ 0 < so.2) (i j : Int) (hi : 0 ≤ i ∧ i < so.1) (hj : 0 ≤ j ∧ j < so.2) :
+    (wavefrontField 1 [gA] so.1 so.2).get i j = (wavefrontField 1 [gB] so.1 so.2).get i j := by
+  obtain ⟨hemb, hposS, hposM⟩ := chain_total_emb_eq ph w0 h0 s ss hwf hEseg hEmono
+  rw [C09.fft_eq_propagate_dft _ W0 W1 dx0 dx1 du0 du1 wl z os shape scrA lam S0 S1 so gA hfA hcons hp hp1 hz hos hS hW hfitA hposS hso i j hi hj,
+      C09.fft_eq_propagate_dft _ W0 W1 dx0 dx1 du0 du1 wl z os shape scrB lam S0 S1 so gB hfB hcons hp hp1 hz hos hS hW hfitB hposM hso i j hi hj]
+  have key := fun r c => propagate_common_linear _ _ hposS hposM hemb
+    (dftAlpha dx0 dx1 du0 du1 lam z os).1 (dftAlpha dx0 dx1 du0 du1 lam z os).2 so.1 so.2 so.1 so.2 1 none 0 0 (0 : ℝ) (0 : ℝ) r c
+  show (wfField 1 so.1 so.2 (propagateDftCommon _ _ _ so.1 so.2 so.1 so.2 1 none 0 0 (0 : ℝ) (0 : ℝ))).get i j
+     = (wfField 1 so.1 so.2 (propagateDftCommon _ _ _ so.1 so.2 so.1 so.2 1 none 0 0 (0 : ℝ) (0 : ℝ))).get i j
+  rw [C07.field_eq_sum _ _ _ i j hi hj, C07.field_eq_sum _ _ _ i j hi hj, key]
+
+end fft
 
 section interleaved_e2e
 variable {K R : Type} [Add R] [Sub R] [Mul R] [Neg R] [RealLike R] [NonAssocSemiring K] [CxLike K R]
